@@ -64,6 +64,9 @@ func (c *Ctx) Rule(id, doc string, min int) string {
 func (c *Ctx) Analysed(f *Func) { c.funcs[f.Key] = true }
 
 func (c *Ctx) add(rule, construct string, pos token.Pos, verdict, detail string, witness []string) {
+	if rule == "" {
+		return // section not claimed under the current property (shared rule bodies)
+	}
 	where := ""
 	if pos.IsValid() {
 		where = c.W.PosStr(pos)
